@@ -692,6 +692,16 @@ func c14(c *core.Ctx) {
 			continue
 		}
 		r := c.Rng(uint64(i))
+		if i%23 == 5 {
+			// a document the library does not support (an opaque BIT value inside
+			// an object, which a real master stores for JSON_OBJECT('a', b'1')) is
+			// decoded first and its outcome ignored: the documents that follow
+			// must decode as if it had never been there
+			obj := []byte{0x00, 0x01, 0x00, 0x0f, 0x00, 0x0b, 0x00, 0x01, 0x00, 0x0f, 0x0c, 0x00, 'a', 0x10, 0x01, 0x01}
+			buf := append([]byte{byte(len(obj)), 0, 0, 0}, obj...)
+			core.Guard(func() { _, _, _ = replication.CellBytes(buf, 0, replication.TypeJSON, 4, false) })
+			x.cell("unsupported-document-decoded-before")
+		}
 		if i < len(specials) {
 			c.Log("scenario %d special %s", i, specials[i].name)
 			x.cell("special:" + strings.TrimRight(specials[i].name, "0123456789-"))
